@@ -16,6 +16,11 @@ void CREATE_FULL_STATE(void)
 __CPROVER_requires(ver < 4 * BIG) __CPROVER_assigns(ver, cur_cost, cur_inphs, cur_inb, base_sample_last)
 __CPROVER_ensures(ver == __CPROVER_old(ver) + 1 && !base_sample_last && cur_cost == cur_cost);
 double HEUR(void) __CPROVER_assigns() __CPROVER_ensures(__CPROVER_return_value == cur_cost);
+#ifdef DIRECT_SAMPLER
+double cur_base_cost; double HEUR_BASE(void) __CPROVER_assigns() __CPROVER_ensures(__CPROVER_return_value == cur_base_cost);   /* the base-class heuristic: another function of the state */
+#else
+#define HEUR_BASE HEUR   /* RejectionInfSampler inherits it */
+#endif
 bool BETTER_H_MAX(double h, double maxc) __CPROVER_assigns(cost_tested_ver) __CPROVER_ensures(cost_tested_ver == ver && __CPROVER_return_value == (h < maxc));
 bool NOT_BELOW_MIN(double minc, double h) __CPROVER_assigns(lower_tested_ver) __CPROVER_ensures(lower_tested_ver == ver && __CPROVER_return_value == !(h < minc));
 bool IN_ANY_PHS(void) __CPROVER_assigns(phs_tested_ver) __CPROVER_ensures(phs_tested_ver == ver && __CPROVER_return_value == cur_inphs);
@@ -70,6 +75,23 @@ __CPROVER_ensures(draws >= __CPROVER_old(draws) && draws - __CPROVER_old(draws) 
 __CPROVER_ensures(__CPROVER_return_value ==> (lower_tested_ver == ver && !(cur_cost < minCost)))                                       /* C15.cost (lower bound) */
 __CPROVER_ensures((__CPROVER_return_value && FINITE_MAX) ==> ((base_sample_last && phs_tested_ver == ver && cur_inphs) || (!base_sample_last && bounds_tested_ver == ver && cur_inb)))
 /*@BODY pl_minmax@*/
+/* ---- the public one-bound forms: a fresh counter, then the helper ---- */
+bool rej_one(double maxCost)
+__CPROVER_requires(PRE_HELPER && maxCost == maxCost)
+__CPROVER_assigns(ver, draws, cur_cost, cur_inphs, cur_inb, base_sample_last, cost_tested_ver)
+__CPROVER_ensures(draws >= __CPROVER_old(draws) && draws - __CPROVER_old(draws) <= numIters_)                                          /* C15.budget: the whole budget, from zero */
+__CPROVER_ensures(__CPROVER_return_value ==> (cost_tested_ver == ver && cur_cost < maxCost && draws > __CPROVER_old(draws)))          /* C15.cost */
+__CPROVER_ensures(!__CPROVER_return_value ==> draws - __CPROVER_old(draws) == numIters_)                                              /* gives up only after numIters_ draws */
+/*@BODY rej_one@*/
+bool pl_one(double maxCost)
+__CPROVER_requires(PRE_HELPER && maxCost == maxCost)
+__CPROVER_assigns(ver, draws, cur_cost, cur_inphs, cur_inb, base_sample_last, kept_last, bounds_tested_ver, phs_tested_ver)
+__CPROVER_ensures(draws >= __CPROVER_old(draws) && (FINITE_MAX ? draws - __CPROVER_old(draws) <= numIters_ : (__CPROVER_return_value && draws == __CPROVER_old(draws) + 1 && base_sample_last)))
+__CPROVER_ensures((FINITE_MAX && __CPROVER_return_value) ==> ((base_sample_last && phs_tested_ver == ver && cur_inphs) || (!base_sample_last && bounds_tested_ver == ver && cur_inb)))   /* C15.region */
+__CPROVER_ensures(__CPROVER_return_value ==> draws > __CPROVER_old(draws))
+/*@BODY pl_one@*/
+void h_rej_one(void) { double m; bool r = rej_one(m); if (r) REACH("informed sample"); else REACH("gave up"); }
+void h_pl_one(void) { double m; bool r = pl_one(m); if (r && FINITE_MAX) REACH("informed"); if (!FINITE_MAX) REACH("no solution yet"); }
 void h_rej_helper(void) { double m; unsigned it; bool r = rej_helper(m, &it); if (r) REACH("informed sample"); else REACH("gave up"); }
 void h_rej_minmax(void) { double a, b; bool r = rej_minmax(a, b); if (r) REACH("informed sample"); else REACH("gave up"); }
 void h_pl_boundsRejectPhs(void) { unsigned it; bool r = pl_boundsRejectPhs(&it); if (r) REACH("accepted"); else REACH("gave up"); }
